@@ -156,7 +156,7 @@ End C02.
   Definition ops_nv := ops1 ++ hs 1 0 ++ [OTick 11; OGc 0; OGc 1; OJoin (cfg x43) []] ++ hs 2 0 ++ hs 2 1 ++ hs 1 2.
   Example strict_run_exists :
     option_map (fun g => (copy_at g 1 idA, copy_at g 2 idA)) (grun zc0 true ops_nv)
-    = Some (Some (mkCopy 4 3 3 [(kj, mkVV [x31] 1 SSet)]), Some (mkCopy 4 3 3 [(kj, mkVV [x31] 1 SSet)])).
+    = Some (Some (mkCopy 6 3 3 [(kj, mkVV [x31] 1 SSet)]), Some (mkCopy 6 3 3 [(kj, mkVV [x31] 1 SSet)])).
   Proof. vm_compute. reflexivity. Qed.
 
 (* the boolean monitor evaluated on the implementation's copies (extract/monitor.ml: c02_ok, with the
